@@ -176,7 +176,7 @@ class ArgsFormat(object):
         if isinstance(name, int):
             arguments = list(self.get_arguments(include_base).values())
 
-            if name >= len(arguments):
+            if not 0 <= name < len(arguments):
                 raise NoSuchArgumentException(name)
         else:
             arguments = self.get_arguments(include_base)
